@@ -69,6 +69,13 @@ def instances(tier, rng):
                 for cons in rng.sample(cl, min(2 if quick else len(cl), len(cl))):
                     feats.append({"cons": cons, "covlen": rng.choice([[1, 2], [3, 4], [7, 10], [17, 20], [1, 1]]),
                                   "elen": [rng.choice([vlib.NONE, 1, 1, 2, 3, 5, 8]) for _ in u["edges"]]})
+                    if not cover:
+                        # node mode: lengths on the nodes (absent = 1); link edges count 0 unless the edge has a length itself
+                        feats.append({"mode": "node", "cons": cons, "covlen": rng.choice([[1, 2], [3, 4], [17, 20], [1, 1]]),
+                                      "nlen": [rng.choice([vlib.NONE, 1, 1, 2, 3, 8]) for _ in u["nodes"]],
+                                      "elen": rng.choice([[], [rng.choice([vlib.NONE, vlib.NONE, 1, 2]) for _ in u["edges"]]])})
+                        if cls != "kFlowDecomp" and rng.random() < 0.6:
+                            feats[-1][rng.choice(["starts", "ends"])] = [rng.choice(u["nodes"])]
             if len(u["edges"]) >= 2:
                 feats.append({"ign": [list(rng.choice(u["edges"]))]})
             if len(u["edges"]) >= 3 and u["proutes"]:
@@ -83,7 +90,7 @@ def instances(tier, rng):
                 feats.append({"ends": [rng.choice(u["nodes"])]})
                 feats.append({"starts": [rng.choice(u["nodes"])], "ends": [rng.choice(u["nodes"])]})
             for cfg in feats:
-                r = C.base(u, cls)
+                r = C.base(u, cls, cfg.get("mode", "edge"))
                 r.update(cfg)
                 if not cover:
                     r["wt"] = "int"
@@ -133,6 +140,31 @@ def instances(tier, rng):
                     else:
                         r["expect_solved"] = True
                     insts.append(r)
+    # constraints that CROSS the planted routes of a DAG motif (first part of one route, last part of another): honouring
+    # them fully costs an extra path, honouring the requested fraction may not - fractions whose product with the length
+    # is not integral, edge and length coverage, edge and node mode (with an additional start/end)
+    for u in mot[0]:
+        cross = C.crossing_routes(u)
+        for p in (cross if not quick else rng.sample(cross, min(2, len(cross)))):
+            es = C.route_edges(p)
+            for cons in ([es], [[es[0], es[-1]]]):
+                for cls in ("MinFlowDecomp", "kFlowDecomp"):
+                    for var in ({"cov": rng.choice([[3, 4], [2, 3], [1, 2]])},
+                                {"covlen": rng.choice([[17, 20], [3, 4], [7, 10]]),
+                                 "elen": [rng.choice([1, 1, 2, 8]) for _ in u["edges"]]},
+                                {"mode": "node", "covlen": rng.choice([[17, 20], [3, 4], [7, 10]]),
+                                 "nlen": [rng.choice([1, 1, 2, 8]) for _ in u["nodes"]]}):
+                        r = C.base(u, cls, var.get("mode", "edge"))
+                        r.update(var)
+                        r["wt"] = "int"
+                        r["cons"] = cons
+                        if cls == "kFlowDecomp":
+                            r["k"] = len(u["proutes"])
+                        else:
+                            r["expect_solved"] = True
+                            if var.get("mode") == "node" and rng.random() < 0.7:
+                                r[rng.choice(["starts", "ends"])] = [rng.choice(u["nodes"])]
+                        insts.append(r)
     C.with_ids(insts)
     C.with_ids(groups, start=len(insts) + 1)
     return insts, groups
